@@ -53,8 +53,19 @@ class Scope:
         self.refs = []            # (line, ref)
         self.children = []
         self.class_key = None
+        self.simple = name.rsplit('.', 1)[-1]   # for matching CPython's symtable
+        self.ctype = None                       # genexpr | listcomp | setcomp | dictcomp
         if parent is not None:
             parent.children.append(self)
+
+    def path(self):
+        """[(kind, simple name, line, comprehension type)] from the module body down to this scope"""
+        out = []
+        s = self
+        while s is not None and s.kind != 'module':
+            out.append((s.kind, s.simple, s.line, s.ctype))
+            s = s.parent
+        return out[::-1]
 
     def bind(self, name, kind=O):
         self.sites.setdefault(name, []).append(kind)
@@ -248,6 +259,7 @@ class ModuleTranslator:
         self.expr(n.returns, sc)
         sc.bind(n.name, ('Fd', sig_of(n.args), decos, sc))
         fs = self.new_scope(sc.qual(n.name), 'function', n.lineno, sc)
+        fs.simple = n.name
         self.bind_params(n.args, fs)
         self.body(n.body, fs)
 
@@ -266,6 +278,7 @@ class ModuleTranslator:
         ckey = self.key + ':' + sc.qual(n.name)
         sc.bind(n.name, S(ckey) if sc.kind in ('module', 'class') else O)
         cs = self.new_scope(sc.qual(n.name), 'class', n.lineno, sc)
+        cs.simple = n.name
         cs.class_key = ckey
         for x in ('__module__', '__qualname__', '__doc__'):
             cs.bind(x)
@@ -371,6 +384,7 @@ class ModuleTranslator:
                     raise Abort(self.where(n) + 'comprehension clause not understood')
             self.expr(gens[0].iter, sc)                     # the first iterable is evaluated outside
             cs = self.new_scope(sc.qual('<comp@%d>' % n.lineno), 'comp', n.lineno, sc)
+            cs.ctype = {ast.ListComp: 'listcomp', ast.SetComp: 'setcomp', ast.GeneratorExp: 'genexpr', ast.DictComp: 'dictcomp'}[t]
             for i, g in enumerate(gens):
                 if i > 0:
                     self.expr(g.iter, cs)
@@ -782,7 +796,8 @@ class World:
         k, si, ri = self.lrefs[i]
         sc = self.mods[k].scopes[si]
         ln, r = sc.refs[ri]
-        return {'module': k, 'scope': sc.name, 'line': ln, 'ref': r, 'file': self.mods[k].path, 'scope_line': sc.line}
+        return {'module': k, 'scope': sc.name, 'line': ln, 'ref': r, 'file': self.mods[k].path, 'scope_line': sc.line,
+                'path': [list(x) for x in sc.path()]}
 
     def find_lref(self, module, scope, ref, line=None):
         """position of a reference in the current facts (exact line first, then the same reference anywhere in the scope)"""
